@@ -24,6 +24,7 @@ import threading, warnings
 TOKEN = "tok-C02"
 METHOD_KINDS = ("method", "static", "classm")
 # non-string member names, by tag -> python value (what survives depends on the serializer)
+BAD_ITEM = "<malformed batch item>"     # wire_name() of {"ns": "baditem"}: the batch item is a 1-tuple, not a triple
 NONSTRING = {"int": 5, "none": None, "float": 1.5, "list": ["a"], "dict": {"a": 1}, "true": True,
              "bytes": b"ab", "tuple": ("a",), "emptylist": [], "zero": 0}
 
@@ -34,6 +35,40 @@ def is_dunder(name):
 
 class Built:
     pass
+
+
+# values for surplus positional / keyword arguments, by tag -> (python value, truthiness)
+ARGVALS = {"false": (False, False), "zero": (0, False), "none": (None, False), "empty": ("", False), "emptylist": ([], False),
+           "true": (True, True), "one": (1, True), "str": ("x", True), "list": ([0], True)}
+
+
+def effective(kind, dv, dk):
+    """what the request means once it has crossed the wire (dv, dk = deserialised vargs, kwargs): for attribute requests the
+    name the handler will index out of vargs, whether a needed positional argument is missing, and the truthiness of surplus
+    positional and of keyword arguments"""
+    def idx(v, i):
+        try:
+            return True, v[i]
+        except Exception:
+            return False, None
+    def truth(x):
+        try:
+            return bool(x)
+        except Exception:
+            return True
+    eff = {"missing": False, "surplus": [], "kwargs": []}
+    if isinstance(dk, dict):
+        eff["kwargs"] = [[str(k), truth(v)] for k, v in dk.items()]
+    if kind in ("getattr", "setattr"):
+        need = 1 if kind == "getattr" else 2
+        ok0, n0 = idx(dv, 0)
+        eff["names"] = [n0 if ok0 and isinstance(n0, str) else {"ns": "effective"}]
+        eff["missing"] = not all(idx(dv, i)[0] for i in range(need))
+        try:
+            eff["surplus"] = [truth(x) for x in list(dv)[need:]]
+        except Exception:
+            eff["surplus"] = []
+    return eff
 
 
 # the interpreter itself looks up __class__ on any instance (isinstance); a hook invocation for it is not
@@ -257,6 +292,8 @@ class Rig:
 
     def wire_name(self, n):
         if isinstance(n, dict):
+            if n["ns"] == "baditem":
+                return BAD_ITEM
             return NONSTRING[n["ns"]]
         return n
 
@@ -271,25 +308,48 @@ class Rig:
         P = self.protocol
         serializer = self.serializers.serializers[ser]
         names = [self.wire_name(n) for n in req["names"]]
+        extra = tuple(ARGVALS[t][0] for t in req.get("extra", ()))
+        kwargs = {k: ARGVALS[t][0] for k, t in (req.get("kwargs") or {}).items()}
         flags = 0
         if req["kind"] == "batch":
             flags |= P.FLAGS_BATCH
-            method, vargs = "<batch>", [(n, (TOKEN,), {}) for n in names]
-        elif req["kind"] == "getattr":
-            method, vargs = "__getattr__", (names[0],)
-        elif req["kind"] == "setattr":
-            method, vargs = "__setattr__", (names[0], 4242)
+            method = "<batch>"
+            vargs = [("x",) if n == BAD_ITEM else (n, (TOKEN,) + extra, dict(kwargs)) for n in names]
+            kwargs = {}
+        elif req["kind"] in ("getattr", "setattr"):
+            method = "__" + req["kind"] + "__"
+            regular = (names[0],) if req["kind"] == "getattr" else (names[0], 4242)
+            if req.get("nargs") is not None:
+                regular = regular[:req["nargs"]]
+            vargs = regular + extra
+            form = req.get("vform", "tuple")
+            if form == "str":
+                vargs = names[0] if isinstance(names[0], str) else "abc"     # a string instead of an argument tuple
+            elif form == "none":
+                vargs = None
+            elif form == "int":
+                vargs = 7
+            elif form == "list":
+                vargs = list(vargs)
         else:
-            method, vargs = names[0], (TOKEN,)
+            method, vargs = names[0], (TOKEN,) + extra
         if req.get("oneway"):
             flags |= P.FLAGS_ONEWAY
         self.seq = (self.seq + 1) & 0xffff
         obs = {"reply": None, "log": None, "exc": None, "raised": None, "state_changed": False, "value": None, "wire": "ok"}
         try:
-            data = serializer.dumpsCall(oid, method, vargs, {})
-        except Exception as x:       # this name cannot be put on the wire by this serializer
+            data = serializer.dumpsCall(oid, method, vargs, kwargs)
+            _, _, dv, dk = serializer.loadsCall(data)
+        except Exception as x:       # this request cannot be put on the wire by this serializer
             obs["wire"] = "unserialisable:" + type(x).__name__
             return obs
+        eff = effective(req["kind"], dv, dk)
+        if req["kind"] not in ("getattr", "setattr"):
+            eff["names"] = [n if isinstance(n, str) and n != BAD_ITEM else {"ns": "effective"} for n in names]
+            eff["surplus"] = [ARGVALS[t][1] for t in req.get("extra", ())]
+            eff["kwargs"] = [[k, ARGVALS[t][1]] for k, t in (req.get("kwargs") or {}).items()]
+        obs["eff"] = eff
+        names = eff["names"]
         msg = P.SendingMessage(P.MSG_INVOKE, flags, self.seq, serializer.serializer_id, data)
         conn = FakeConn(bytes(msg.data), self.errors)
         del built.log[:]
